@@ -581,6 +581,9 @@ def orc_c17(ctx, op, req, impl, model, spec):
         return "from_parts(into_parts(x)) != x"
     if op == "fromparts" and get_kv(impl, "jp") != "1":
         return "from_parts differs from parsing the joined string"
+    if op == "fromparts" and get_kv(impl, "loc") != get_kv(impl, "str"):
+        return "Locale::from_parts (no extensions) prints %s, LanguageIdentifier::from_parts of the same parts prints %s" % (
+            get_kv(impl, "loc"), get_kv(impl, "str"))
     if op == "raw" and impl != "ok none" and f[3] != "1":
         return "integer form does not convert back to an equal subtag"
     if op == "rawref" and req.split(" ")[1] in ("lang", "variant") and impl != "ok none" and f[-1] != "1":
